@@ -403,7 +403,7 @@ def c_duration_div_movestogo(site, fx):
 def c_plies_assumption(site, fx):
     # plies + 1 / killer table index at ply 255 in negamax: recorded assumption (no failing input in reach)
     if site.family == "arith" and site.what == "Add" and site.ty == "u8" and in_fn(site, "negamax::negamax"):
-        return any(deep_strip(o) == ("arg", 5, "plies") for o in site.ops)
+        return any(isinstance(deep_strip(o), tuple) and deep_strip(o)[:2] == ("arg", 5) for o in site.ops)
     if site.family == "bounds" and in_fn(site, "KillersTable::get_0", "KillersTable::get_1", "KillersTable::try_push"):
         return True
     return False
